@@ -114,6 +114,18 @@ impl<'s, W: FmtWrite> Stringifier<'s, W> {
         Ok(())
     }
 
+    /// Writes a `src` value: the parser strips one optional suffix, so a name that itself ends with the suffix is written with the suffix added.
+    fn write_src_quoted(&mut self, n: &StrName, suffix: &str) -> FmtResult {
+        let quoted = escape_html_quote(&n.name);
+        self.write_str("\"")?;
+        self.write_token(&quoted, Some(&n.name), &n.location())?;
+        if n.name.ends_with(suffix) {
+            self.write_str(suffix)?;
+        }
+        self.write_str("\"")?;
+        Ok(())
+    }
+
     fn write_ident(&mut self, n: &Ident, need_name: bool) -> FmtResult {
         self.write_token(&n.name, need_name.then_some(&n.name), &n.location())
     }
